@@ -169,6 +169,10 @@ func litStr(s string) expr {
 	return eLit{strconv.Quote(s), func() interface{} { return s }}
 }
 
+func litF(src string, f float64) expr {
+	return eLit{src, func() interface{} { return f }}
+}
+
 var (
 	litFloat = eLit{"2.5", func() interface{} { return float64(2.5) }}
 	litTrue  = eLit{"true", func() interface{} { return true }}
@@ -430,6 +434,22 @@ func buildAlphabet() []op {
 	add("struct/second-value", false, sExpr{mem(st2, "D")})
 	add("struct/second-value", false, sLet{mem(st2, "A"), litInt(9)})
 	add("struct/second-value", false, sAddEq{mem(st2, "C"), litInt(6)})
+	// S. membership on the typed containers: the language's equality applied to
+	// the current contents, never a conversion of the item to the element type
+	for _, it := range []expr{litF("-0.5", -0.5), litF("9.5", 9.5), litInt(0), litStr("0"), litStr("p"), litNil} {
+		add("in/typed", false, sExpr{eIn{it, t}})
+	}
+	for _, it := range []expr{litStr("p"), litInt(112), litInt(1), litNil} {
+		add("in/typed", false, sExpr{eIn{it, ts}})
+	}
+	for _, it := range []expr{litInt(0), litF("-0.5", -0.5), litStr("0"), litInt(9)} {
+		add("in/typed", false, sExpr{eIn{it, tf}})
+	}
+	add("in/typed", false, sExpr{eIn{litF("-0.5", -0.5), u}})
+	add("in/typed", false, sExpr{eIn{litInt(7), u}})
+	add("in", false, sExpr{eIn{litF("2.0", 2), a}})
+	add("in", false, sExpr{eIn{litStr("2"), a}})
+	add("typed/store", false, sLet{idx(ts, litInt(1)), litStr("1")})
 	// R. a typed slice that lives in a struct field or in an element of a
 	// [][]int64, read into another name or passed to a function: an append
 	// through that name (assignment at index len) works on a COPY of the slice
